@@ -50,6 +50,18 @@ def regen(ctx):
         _REGEN_OK = True
     except Exception:
         _REGEN_OK = False
+        # the driver skips the proof build when the translator fails: record the obligations
+        # (all undischarged) so that the evidence still says what was at stake
+        import re
+        try:
+            src = open(os.path.join(here, "..", "..", "coq", "props", "C34.v")).read()
+            src = re.sub(r"\(\*.*?\*\)", "", src, flags=re.S)
+            ctx.theorems = re.findall(r"^\s*(?:Theorem|Example)\s+([A-Za-z0-9_']+)", src, re.M)
+            ctx.obligations = len(ctx.theorems)
+            ctx.discharged = 0
+            ctx.checker_cmd = "not run: tools/translate_cli.py failed (fail-closed translator)"
+        except OSError:
+            pass
         raise
 
 
